@@ -10,7 +10,9 @@ that cannot run or answers something the model has no term for raises ExtractErr
 * `productsNeedParameter` — `pytask_execute_task` passes a product as keyword argument only if the function has that parameter;
 * `taskProducesReplaces`  — with `@task(produces=…)`, `parse_products_from_task_function` drops the products parsed from parameters;
 * `collapseKeepsUserNodes` — `parse_dependencies_from_task_function` does not fold a container holding a user-written node into one PythonNode;
-* `productFalsyFallsBack` — a falsy declared product value (`produces=[]`) is replaced by the annotation / None.
+* `productFalsyFallsBack` — a falsy declared product value (`produces=[]`) is replaced by the annotation / None;
+* `generatorDepsAsProducts`, `generatorProductsAsProducts`, `generatorProductsNeedParameter` — the `is_product` flags and the
+  `name in parameters` guard of the separate kwargs loop for task generators in `provisional.pytask_execute_task`.
 
 Hook into `extract.py` with:   from extract_pytree import pytree_facts; EXTRA_SECTIONS.append(pytree_facts)
 """
@@ -77,6 +79,59 @@ def _execute_probes():
     if guarded and not seen.get("called"):
         raise _err("probe of the products loop: body not called")
     return strict, guarded
+
+
+def _generator_probes():
+    from _pytask.nodes import PythonNode, TaskWithoutPath
+    from _pytask.provisional import pytask_execute_task as gen_execute
+    from _pytask.session import Session
+
+    def run(function, produces):
+        task = TaskWithoutPath(name="verif_g", function=function, depends_on={"x": PythonNode(name="verif_gx", value=5)},
+                               produces=produces, attributes={"is_generator": True})
+        try:
+            gen_execute(session=Session(config={}, hook=None), task=task)
+        except RuntimeError:
+            pass        # "did not create any tasks": raised after the body ran
+
+    seen = {}
+
+    def body(x, y):
+        seen["x"], seen["y"] = x, y
+
+    try:
+        run(body, {"y": PythonNode(name="verif_gy", value=6)})
+    except Exception as e:  # noqa: BLE001
+        raise _err(f"probe of the generator kwargs loop failed: {type(e).__name__}: {e}") from None
+    if "x" not in seen:
+        raise _err("probe of the generator kwargs loop: body not called")
+    if seen["x"] == 5:
+        dep_flag = False
+    elif isinstance(seen["x"], PythonNode):
+        dep_flag = True
+    else:
+        raise _err(f"generator dependency arrived as {seen['x']!r}")
+    if isinstance(seen["y"], PythonNode):
+        prod_flag = True
+    elif seen["y"] == 6:
+        prod_flag = False
+    else:
+        raise _err(f"generator product arrived as {seen['y']!r}")
+    called = {}
+
+    def body2(x):  # noqa: ARG001
+        called["yes"] = True
+
+    try:
+        run(body2, {"extra": PythonNode(name="verif_ge", value=7)})
+        guarded = True
+    except TypeError:
+        guarded = False
+    except Exception as e:  # noqa: BLE001
+        raise _err(f"probe of the generator products loop failed: {type(e).__name__}: {e}") from None
+    if guarded and not called.get("yes"):
+        raise _err("probe of the generator products loop: body not called")
+    return dep_flag, prod_flag, guarded
 
 
 def _session():
@@ -176,6 +231,7 @@ def pytree_facts() -> list[str]:
     repl = _task_produces_replaces()
     keeps = _collapse_keeps_user_nodes()
     falls = _product_falsy_falls_back()
+    gdep, gprod, gguard = _generator_probes()
     b = extract.lean_bool
     return [
         "/-- every optree wrapper of `tree_util.py` treats `None` as a leaf (`none_is_leaf=True`). -/",
@@ -190,5 +246,9 @@ def pytree_facts() -> list[str]:
         f"def collapseKeepsUserNodes : Bool := {b(keeps)}",
         "/-- a falsy declared product value falls through to the annotation / `None` (`kwargs.get(name) or …`; removed by fix 123c420). -/",
         f"def productFalsyFallsBack : Bool := {b(falls)}",
+        "/-- task generators (`provisional.pytask_execute_task`): `is_product` used for dependencies / products, and the parameter guard. -/",
+        f"def generatorDepsAsProducts : Bool := {b(gdep)}",
+        f"def generatorProductsAsProducts : Bool := {b(gprod)}",
+        f"def generatorProductsNeedParameter : Bool := {b(gguard)}",
         "",
     ]
